@@ -229,6 +229,107 @@ func c19Sort(run *evid.Run, es []iface.IPFSLogEntry, src string) {
 	}
 }
 
+// c19Undefined: what the library itself never builds but its callers can hand in - a list with an undefined element
+// (nil interface, typed nil) under the comparator that refuses such elements, and ONE entry without a hash among
+// hashed ones at equal clocks. Sort stays a permutation; the tie-break stays one strict order.
+func c19Undefined(run *evid.Run) {
+	mk := func(h string, t int) *entry.Entry {
+		return &entry.Entry{Hash: foreignCid(h), Clock: entry.NewLamportClock([]byte{0x01}, t), LogID: "x", Payload: []byte(h)}
+	}
+	es := []iface.IPFSLogEntry{mk("u-4", 4), nil, mk("u-2", 2), mk("u-3", 3), mk("u-1", 1)}
+	for variant := 0; variant < 2; variant++ {
+		if variant == 1 {
+			es[1] = (*entry.Entry)(nil)
+		}
+		for _, rev := range []bool{false, true} {
+			bad := false
+			permutations(len(es), func(p []int) {
+				if bad {
+					return
+				}
+				in := make([]iface.IPFSLogEntry, len(es))
+				for i, j := range p {
+					in[i] = es[j]
+				}
+				func() {
+					defer func() { _ = recover() }() // (a comparator that cannot take such an element is not this clause's business)
+					sorting.Sort(sorting.Compare, in, rev)
+				}()
+				run.Count("sort_calls_with_an_undefined_element", 1)
+				cnt := map[iface.IPFSLogEntry]int{}
+				nils := 0
+				for _, e := range in {
+					if e == nil || e == iface.IPFSLogEntry((*entry.Entry)(nil)) {
+						nils++
+						continue
+					}
+					cnt[e]++
+				}
+				ok := nils == 1
+				for _, e := range es {
+					if e == nil || e == iface.IPFSLogEntry((*entry.Entry)(nil)) {
+						continue
+					}
+					if cnt[e] != 1 {
+						ok = false
+					}
+				}
+				if !ok {
+					bad = true
+					var got []string
+					for _, e := range in {
+						if e == nil || e == iface.IPFSLogEntry((*entry.Entry)(nil)) {
+							got = append(got, "<undefined>")
+						} else {
+							got = append(got, string(e.GetPayload()))
+						}
+					}
+					run.Violate("C19/sort-not-permutation", det("order", "clock comparator that refuses undefined entries", "reverse", rev), map[string]any{"source": "a list with one undefined element", "output": got}, "Sort output is not a permutation of its input: %v", got)
+				}
+			})
+		}
+	}
+	run.NonTrivial("sort/undefined-element")
+	// one entry without a hash among three hashed ones, equal clocks; signatures in every order relative to the hashes
+	sigs := [][]byte{{0x10, 0x01}, {0x40, 0x02}, {0x80, 0x03}, {0xc0, 0x04}}
+	permutations(4, func(p []int) {
+		var q []*entry.Entry
+		for k, h := range []string{"v-a", "v-b", "v-c"} {
+			e := mk(h, 5)
+			e.Sig = sigs[p[k]]
+			q = append(q, e)
+		}
+		u := &entry.Entry{Hash: cid.Undef, Clock: entry.NewLamportClock([]byte{0x01}, 5), LogID: "x", Payload: []byte("unhashed"), Sig: sigs[p[3]]}
+		q = append(q, u)
+		var m [4][4]int
+		for i := range q {
+			for j := range q {
+				func() {
+					defer func() { _ = recover() }()
+					c, _ := sorting.SortByEntryHash(q[i], q[j])
+					m[i][j] = sgn(c)
+				}()
+			}
+		}
+		run.Count("pairs_with_an_unhashed_entry", 16)
+		name := func(i int) string { return string(q[i].GetPayload()) }
+		for i := range q {
+			for j := range q {
+				if i != j && m[i][j] != -m[j][i] {
+					run.Violate("C19/hash-order-antisymmetric", det("unhashed_entry", true), map[string]any{"a": name(i), "b": name(j)}, "hash-tiebreak ordering not antisymmetric with an unhashed entry: f(a,b)=%d f(b,a)=%d", m[i][j], m[j][i])
+				}
+				for k := range q {
+					if m[i][j] < 0 && m[j][k] < 0 && m[i][k] >= 0 {
+						run.Violate("C19/hash-order-transitive", det("unhashed_entry", true), map[string]any{"a": name(i), "b": name(j), "c": name(k), "signatures": fmt.Sprintf("%x", [][]byte{q[0].Sig, q[1].Sig, q[2].Sig, q[3].Sig})},
+							"hash-tiebreak ordering is not transitive when one entry has no hash: %s < %s < %s but f(a,c)=%d", name(i), name(j), name(k), m[i][k])
+					}
+				}
+			}
+		}
+	})
+	run.NonTrivial("pair/unhashed-entry")
+}
+
 func CheckC19(run *evid.Run) {
 	run.Rule = "axioms evaluated EXHAUSTIVELY over a synthetic domain of 198 entries = clock times {0,1,2,7,2^31,10^10,2^40,2^53,2^53+1,2^62,MaxInt64} x clock ids {empty,00,01,0100,ff,65-byte key} x 3 hashes: all 39204 ordered pairs (irreflexivity, totality, antisymmetry of the hash-tiebreak order; default = hash-tiebreak on distinct clocks; clock antisymmetry; smaller time first; first-write-wins = -last-write-wins; NoZeroes transparency) and all 7762392 ordered triples (transitivity); plus 16 entries whose identifiers are DISTINCT CIDs WITH THE SAME DIGEST (CIDv0 / v1 dag-pb / v1 raw / v1 dag-cbor) at equal clocks, all pairs and triples; plus 27 identifiers = 9 digests (leading bytes 00,01,19,1a,1f,20,7f,80,ff) x {CIDv0, v1 dag-pb, v1 dag-cbor} at equal clocks, all pairs and triples (a criterion that depends on the VERSIONS of the pair compared is not one order); Sort over all permutations of seeded sub-multisets of <=6 entries (720 permutations each, both directions, two total comparators): permutation, sortedness, determinism; plus pairs/triples/sorts drawn from real seeded histories (thorough: 10^6 triples). Non-trivial pair = entries tie on time or on (time,id); distinct = (time relation, id relation, hash relation) class, counted"
 	run.Assumptions = []string{"clock times are non-negative as in every entry the library creates; negative times (hostile blocks only) are outside the property's domain"}
@@ -290,6 +391,7 @@ func CheckC19(run *evid.Run) {
 	}
 	run.Count("mixed_version_identifier_pairs", len(mv)*len(mv))
 	run.NonTrivial("pair/mixed-cid-versions")
+	c19Undefined(run)
 	// clock ids that are views of ONE roomy buffer (a caller that sliced its keys out of a larger allocation):
 	// comparing must neither depend on nor write into the spare capacity
 	roomy := make([]byte, 65, 1024)
